@@ -739,6 +739,7 @@ func Cross() []*File {
 				one("local_leaf", 17, "message", ".verif.xa.Leaf"),
 				one("local_side", 18, "enum", ".verif.xa.Side"),
 				rep("local_sides", 19, "enum", ".verif.xa.Side"),
+				mp("leaf_by_name", 20, "string", "message", ".verif.xb.Leaf"), // a map whose value type lives in another proto package
 			}},
 			{Name: "Leaf", Fields: []F{one("note", 1, "string"), one("weight", 2, "sint64")}},
 			{Name: "Times", Fields: []F{rep("ds", 1, "message", ".google.protobuf.Duration"), rep("tss", 2, "message", ".google.protobuf.Timestamp"),
@@ -785,8 +786,9 @@ func ExtSet(prefix string) []X {
 func PluginUniverse() map[string]*File {
 	cross := Cross()
 	a, b := cross[1], cross[3] // xb, xa
-	c := &File{Name: "verif/xb/xb2.proto", Pkg: "verif.xb", GoPkg: "xb", Group: "x", Deps: []string{"verif/xb/xb.proto"},
-		Msgs: []M{{Name: "Branch", Fields: []F{one("leaf", 1, "message", ".verif.xb.Leaf"), rep("tags", 2, "string"), rep("nums", 3, "sint32"), rep("ws", 4, "double")}}}}
+	// (imports TWO files of its own Go package: two init-ordering calls in the generated file)
+	c := &File{Name: "verif/xb/xb2.proto", Pkg: "verif.xb", GoPkg: "xb", Group: "x", Deps: []string{"verif/xb/xb.proto", "verif/xb/xbe.proto"},
+		Msgs: []M{{Name: "Branch", Fields: []F{one("leaf", 1, "message", ".verif.xb.Leaf"), one("mood", 5, "enum", ".verif.xb.Mood"), rep("tags", 2, "string"), rep("nums", 3, "sint32"), rep("ws", 4, "double")}}}}
 	d := &File{Name: "verif/p2/p2.proto", Pkg: "verif.p2", GoPkg: "p2", Group: "p2", Syntax: "proto2",
 		Msgs: []M{{Name: "Old", Fields: []F{one("a", 1, "int32"), one("b", 2, "string")}}}}
 	e := &File{Name: "verif/ex/ex.proto", Pkg: "verif.ex", GoPkg: "ex", Group: "ex",
